@@ -33,7 +33,14 @@ def design_cfgs(tier):
 
 # ---------------------------------------------------------------- replay of exported behaviours
 VARIANTS = [('float64', 'flat', 1.0), ('float32', 'flat', 0.5), ('float64', 'col', 0.25), ('int64', 'flat', 2.0),
-            ('complex128', 'flat', 1.0), ('float64', 'scalar', 1.0)]
+            ('complex128', 'flat', 1.0), ('float64', 'scalar', 1.0),
+            ('float64', 'flat', (2.0 ** -5, 2.0 ** 36))]      # (scale, offset): finely spaced times far from the origin (dt/|t| ~ 5e-13), still exact
+
+
+def _tm(ts, t):
+    """time map of a variant: t * scale (+ offset)"""
+    return t * ts if not isinstance(ts, tuple) else ts[1] + t * ts[0]
+
 # complex variant: component v is stored as v + (2v+1)j; linear interpolation commutes with this affine map, so the
 # imaginary part of every answer must be 2*re+1 of the (exactly known) real part
 
@@ -62,7 +69,7 @@ def _replay_one(case, variant, rng):
     shape = _shape(k, mode)
     DDEHistory._INITIAL_CAPACITY = case['initcap']
     y0 = _mk(case['y0'], dtype, shape)
-    h = DDEHistory(y0, t0=case['t0'] * ts, max_steps=(case['maxsteps'] or None))
+    h = DDEHistory(y0, t0=_tm(ts, case['t0']), max_steps=(case['maxsteps'] or None))
     y0[...] = 55555                       # the constructor must have copied as well
     a = np.zeros(shape, dtype=dtype)      # the single array object the caller keeps re-using
     status = 'init'
@@ -70,7 +77,7 @@ def _replay_one(case, variant, rng):
         if c['a'] == 'update':
             a[...] = _mk(c['y'], dtype, shape)
             try:
-                h.update(c['t'] * ts, a)
+                h.update(_tm(ts, c['t']), a)
                 status = 'ok'
             except IndexError:
                 status = 'refused'
@@ -84,7 +91,7 @@ def _replay_one(case, variant, rng):
     orders = [qs, qs[::-1], rng.sample(qs, len(qs))]
     for order in orders:
         for q in order:
-            raw = np.asarray(h(q['t'] * ts)).ravel()
+            raw = np.asarray(h(_tm(ts, q['t']))).ravel()
             exp = [Fraction(n, d) for n, d in q['r']]
             obs = [Fraction(float(x.real)) for x in raw]
             if dtype.startswith('complex'):
@@ -123,12 +130,12 @@ def record_traces(job):
     traces = []
     for tno in range(job['n']):
         k = rng.choice([1, 1, 2, 3])
-        dtype, mode, ts = rng.choice(VARIANTS[:5])
+        dtype, mode, ts = rng.choice(VARIANTS[:5] + VARIANTS[6:])
         cx = dtype.startswith('complex')
         shape = _shape(k, mode)
         t0 = rng.choice([0, 0, 3, -2])
         y0v = [rng.randint(-8, 8) for _ in range(k)]
-        h = DDEHistory(_mk(y0v, dtype, shape), t0=t0 * ts, max_steps=(job['maxsteps'] or None))
+        h = DDEHistory(_mk(y0v, dtype, shape), t0=_tm(ts, t0), max_steps=(job['maxsteps'] or None))
         if cx:      # log real and imaginary parts as 2k components
             y0v = y0v + [2 * v + 1 for v in y0v]
         a = np.zeros(shape, dtype=dtype)
@@ -140,7 +147,7 @@ def record_traces(job):
             v = [rng.randint(-8, 8) for _ in range(k)]
             a[...] = _mk(v, dtype, shape)
             try:
-                h.update(t * ts, a); st = 'ok'
+                h.update(_tm(ts, t), a); st = 'ok'
             except IndexError:
                 st = 'refused'
             evs.append(dict(ev='update', t=t, y=(v + [2 * x + 1 for x in v]) if cx else v, status=st))
@@ -150,7 +157,7 @@ def record_traces(job):
             evs.append(dict(ev='mutate'))
             for _ in range(rng.choice([0, 1, 1, 2, job.get('qmax', 3)])):
                 qt = rng.randint(t0 - 2, t + 2)
-                raw = np.asarray(h(qt * ts)).ravel()
+                raw = np.asarray(h(_tm(ts, qt))).ravel()
                 fr = [Fraction(float(x.real)) for x in raw] + ([Fraction(float(x.imag)) for x in raw] if cx else [])
                 if any(f.denominator > 64 or abs(f.numerator) > 10 ** 6 for f in fr):
                     evs.append(dict(ev='query', t=qt, r=[[999999, 1]] * len(fr)))   # not representable: will be rejected
